@@ -141,10 +141,11 @@ const (
 	hStaleRelease
 	hPoolPingFail
 	hPoolDoFail
+	hHoldPastLifetime
 	nHolderProgs
 )
 
-var holderNames = [nHolderProgs]string{"ok", "exception", "transport-error", "cancelled", "double-release", "pool.Do", "pool.Ping", "two-queries", "stale-release-after-reacquire", "pool.Ping-on-broken-transport", "pool.Do-on-broken-transport"}
+var holderNames = [nHolderProgs]string{"ok", "exception", "transport-error", "cancelled", "double-release", "pool.Do", "pool.Ping", "two-queries", "stale-release-after-reacquire", "pool.Ping-on-broken-transport", "pool.Do-on-broken-transport", "hold-past-lifetime"}
 
 type poolScn struct {
 	maxConns int
@@ -281,6 +282,40 @@ func bodyPool(s poolScn) Body {
 				w.ev("%s:do:%s", h, errClass(derr))
 				w.ev("%s:release", h)
 				c.Release()
+				return
+			}
+			if prog == hHoldPastLifetime {
+				// the holder keeps a healthy connection longer than MaxConnLifetime, releases it and
+				// acquires again at once (before any health check could have looked at it): the
+				// expired connection must not come back
+				c, aerr := p.Acquire(ctx)
+				if aerr != nil {
+					w.ev("%s:acquire-failed:%v", h, aerr)
+					return
+				}
+				w.ev("%s:acquired", h)
+				derr := do(h, c, h+"-q1", "SELECT 1", ctx)
+				w.ev("%s:do:%s", h, errClass(derr))
+				vsched.Quiet(func() { simnet.Gap(lifetime + time.Second) })
+				w.ev("%s:release", h)
+				c.Release()
+				c2, aerr := p.Acquire(ctx)
+				if aerr != nil {
+					w.ev("%s:acquire-failed:%v", h, aerr)
+					return
+				}
+				w.ev("%sb:acquired", h)
+				derr = do(h+"b", c2, h+"b-q1", "SELECT 1", ctx)
+				w.ev("%sb:do:%s", h, errClass(derr))
+				w.mu.Lock()
+				first, ok1 := w.queryOn[h+"-q1"]
+				second, ok2 := w.queryOn[h+"b-q1"]
+				w.mu.Unlock()
+				if ok1 && ok2 && first == second {
+					setViol(name+"/expired-connection-reissued", fmt.Sprintf("holder %s released connection %d %v after it was dialled (MaxConnLifetime %v) and the next Acquire handed the same connection out again", h, first, lifetime+time.Second, lifetime))
+				}
+				w.ev("%sb:release", h)
+				c2.Release()
 				return
 			}
 			if prog == hStaleRelease {
@@ -483,7 +518,7 @@ func (w *poolWorld) openConns() int {
 
 // C11 — a pooled connection has one holder; dead or expired ones are never reissued.
 func C11(c *vk.Ctx) {
-	c.Rule("pool scenarios = N in {2, 3} holder threads x MaxConns in {1, 2}, each holder running one program of {Acquire-Do(ok)-Release, Do answered by an exception, Do ending in a transport error, Do with a cancelled context, Release three times, Pool.Do, Pool.Ping, Pool.Ping / Pool.Do on a transport that broke while the connection was idle followed by Acquire-Do-Release, two queries, release-reacquire-release the first handle again (also after the connection went round n acquire-release cycles in between, for every n <= 130)}, optionally a thread calling Pool.Close concurrently; plus health-check scenarios (period 1 s, idle 2 s, lifetime 5 s of fake time), plus scenarios on a transport whose Close tears the connection down but returns an error. The real chpool + puddle (instrumented at API granularity) + ch.Dial run under the scheduler; what a holder does on its own connection is a quiet region. All interleavings of the pool-level steps up to the preemption bound (quick 1, thorough 2). Oracle: never two holders of one connection, a connection released broken is never acquired again and never written to, open connections <= MaxConns at every dial, no panic on repeated Release, nothing acquired at the end, after Close every dialled connection is closed, idle connections are destroyed by the health check. distinct_nontrivial = executions.")
+	c.Rule("pool scenarios = N in {2, 3} holder threads x MaxConns in {1, 2}, each holder running one program of {Acquire-Do(ok)-Release, Do answered by an exception, Do ending in a transport error, Do with a cancelled context, Release three times, Pool.Do, Pool.Ping, Pool.Ping / Pool.Do on a transport that broke while the connection was idle followed by Acquire-Do-Release, two queries, release-reacquire-release the first handle again (also after the connection went round n acquire-release cycles in between, for every n <= 130)}, optionally a thread calling Pool.Close concurrently; plus health-check scenarios (period 1 s, idle 2 s, lifetime 5 s of fake time) and a holder that keeps a connection past MaxConnLifetime while the health check is an hour away, plus scenarios on a transport whose Close tears the connection down but returns an error. The real chpool + puddle (instrumented at API granularity) + ch.Dial run under the scheduler; what a holder does on its own connection is a quiet region. All interleavings of the pool-level steps up to the preemption bound (quick 1, thorough 2). Oracle: never two holders of one connection, a connection released broken is never acquired again and never written to, open connections <= MaxConns at every dial, no panic on repeated Release, nothing acquired at the end, after Close every dialled connection is closed, idle connections are destroyed by the health check, a connection released after its lifetime is not handed out again. distinct_nontrivial = executions.")
 	quick := c.Quick()
 	bound := 1
 	if !quick {
@@ -503,8 +538,8 @@ func C11(c *vk.Ctx) {
 		scns = append(scns, poolScn{maxConns: 1, progs: []int{hTransport, hPoolDo}, closer: true})
 	} else {
 		for _, mc := range []int{1, 2} {
-			for a := 0; a < nHolderProgs; a++ {
-				for b := a; b < nHolderProgs; b++ {
+			for a := 0; a < hHoldPastLifetime; a++ { // (that program needs its own pool options)
+				for b := a; b < hHoldPastLifetime; b++ {
 					scns = append(scns, poolScn{maxConns: mc, progs: []int{a, b}})
 				}
 			}
@@ -521,6 +556,9 @@ func C11(c *vk.Ctx) {
 		poolScn{maxConns: 2, progs: []int{hOK}, period: time.Second, idleTime: 2 * time.Second, lifetime: time.Hour, idleWait: 4 * time.Second},
 		poolScn{maxConns: 2, progs: []int{hOK, hOK}, period: time.Second, idleTime: time.Hour, lifetime: 3 * time.Second, idleWait: 5 * time.Second},
 		poolScn{maxConns: 1, progs: []int{hTwoQueries, hOK}, period: time.Second, idleTime: 2 * time.Second, lifetime: 5 * time.Second, idleWait: 7 * time.Second},
+		// lifetime without the health check's help (its period is an hour): the release path alone
+		// has to retire a connection that is older than MaxConnLifetime
+		poolScn{maxConns: 1, progs: []int{hHoldPastLifetime}, period: time.Hour, idleTime: time.Hour, lifetime: 3 * time.Second},
 	)
 	// a transport whose Close tears the connection down but reports an error: a client that
 	// closed itself (transport error, cancelled query) must still not be reissued
